@@ -347,7 +347,22 @@ func SaveAfterAssociations(create bool) func(db *gorm.DB) {
 				}
 
 				if joins.Len() > 0 {
-					db.AddError(db.Session(&gorm.Session{NewDB: true}).Clauses(clause.OnConflict{DoNothing: true}).Session(&gorm.Session{
+					onConflict := clause.OnConflict{DoNothing: true}
+					// a join model with a soft-delete field: linking again after the link was removed has to
+					// revive the marked join row, which still holds the key (DO NOTHING would drop the link)
+					var softDeleteColumns []string
+					for _, f := range rel.JoinTable.Fields {
+						if _, ok := reflect.New(f.IndirectFieldType).Interface().(schema.DeleteClausesInterface); ok && f.DBName != "" {
+							softDeleteColumns = append(softDeleteColumns, f.DBName)
+						}
+					}
+					if len(softDeleteColumns) > 0 && len(rel.JoinTable.PrimaryFieldDBNames) > 0 {
+						onConflict = clause.OnConflict{DoUpdates: clause.AssignmentColumns(softDeleteColumns)}
+						for _, dbName := range rel.JoinTable.PrimaryFieldDBNames {
+							onConflict.Columns = append(onConflict.Columns, clause.Column{Name: dbName})
+						}
+					}
+					db.AddError(db.Session(&gorm.Session{NewDB: true}).Clauses(onConflict).Session(&gorm.Session{
 						SkipHooks:                db.Statement.SkipHooks,
 						DisableNestedTransaction: true,
 					}).Create(joins.Interface()).Error)
